@@ -220,7 +220,13 @@ fn format_timestamp_function(
     let dt = DateTime::from_timestamp(timestamp as i64, 0)
         .ok_or_else(|| tera::Error::msg("Invalid timestamp"))?
         .with_timezone(&Utc);
-    let formatted = dt.format(chrono_format).to_string();
+    // An invalid strftime specifier (e.g. "%Q") makes chrono's Display return an error, and
+    // to_string() would panic on it: write into a String and report the error instead
+    use std::fmt::Write as _;
+    let mut formatted = String::new();
+    write!(formatted, "{}", dt.format(chrono_format)).map_err(|_| {
+        tera::Error::msg(format!("Invalid timestamp format string: '{format}'"))
+    })?;
 
     Ok(Value::String(formatted))
 }
